@@ -275,6 +275,8 @@ def run(ck):
                       "theorems_no_longer_tied": ["C18_rr_fair", "C18_rr_restart"],
                       "case": meta[i], "impl": impl[i], "model": mo[i], "replay_op": "rr"}, no_input=True)
 
+    if ck.tier == "thorough":
+        ck.coqchk(["AV.Props.C18"])
     ck.cov["rule"] = ("seeded generator (random.Random(VERIF_SEED)): byte keys of every length mod 4 incl. bytes>=0x80 and up to 600 bytes, "
                       "text keys incl. non-BMP and lone surrogates, partition lists (contiguous, sparse, unsorted, duplicated, empty), "
                       "round-robin histories with list changes and random/fixed start (randint values read back). "
